@@ -158,7 +158,7 @@ package bcl
 //@   requires placeholder_open: p.hadError || select(g.jopen, offset)
 //@   requires same_depth_on_both_paths: p.hadError || g.sd == select(g.jd, offset)
 //@   ensures length_kept: len(p.prog.code) == old(len(p.prog.code))
-//@   ensures [C14] distance_big_endian: p.hadError || int(p.prog.code[offset]) * 256 + int(p.prog.code[offset+1]) == len(p.prog.code) - offset - 2
+//@   ensures [C10,C14] distance_big_endian: p.hadError || int(p.prog.code[offset]) * 256 + int(p.prog.code[offset+1]) == len(p.prog.code) - offset - 2
 //@   ensures others_kept: forall i int :: 0 <= i && i < len(p.prog.code) && i != offset && i != offset + 1 ==> p.prog.code[i] == old(p.prog.code[i])
 //@   modifies Prog.code, p.hadError, p.panicMode, g.diags
 //@   ghost jopen = store(g.jopen, offset, false); njopen = g.njopen - 1; maxtarget = g.maxtarget >= len(p.prog.code) ? g.maxtarget : len(p.prog.code)
